@@ -1,0 +1,10 @@
+//go:build verif
+
+package goja
+
+// Values that may be shared between goroutines (C16, narrow claim): sharing is race-free because
+// nothing writes them once they have been handed out. For each field below every store in the package
+// is either to an object the storing function has just allocated, or inside a declared constructor.
+
+//@ stable Program.code Program.funcName Program.src Program.srcMap
+//@ stable importedString.s importedString.u importedString.scanned
